@@ -154,7 +154,7 @@ macro "ok_fin" : tactic => `(tactic| (try dsimp only) <;> first
 
 /-- the local checks of a parser-shaped node raise only caught classes once Tuples are sqlalchemy tuples and
 `RenderError` is a caught class -/
-theorem local_ok (tb : Tables) (h1 : tb.tupleIsList = false) (h2 : tb.dupExc.caught = true)
+theorem local_ok (tb : Tables) (h1 : tb.tupleIsList = false) (h2 : tb.dupExc.caught = true) (h3 : tb.funcGuard = true)
     (c : Ctx) (tag : Tag) (kids : List T) (hs : shapedNode tb c tag kids = true) :
     okExc (pre tb c tag kids) = true ∧ okExc (post tb c tag kids) = true := by
   have hcm : ∀ r m, kindAt tb kids 0 ≠ .text → callMethod tb (kindAt tb kids 0) r m = none :=
@@ -185,6 +185,10 @@ theorem local_ok (tb : Tables) (h1 : tb.tupleIsList = false) (h2 : tb.dupExc.cau
       | expr =>
         cases tag with
         | param h => cases h <;> rfl
+        | func name d hf al =>
+          show okExc (funcNameRaise tb name) = true
+          unfold funcNameRaise
+          cases funcClass tb name <;> simp [h3, okExc, Exc.caught]
         | _ => ok_fin
       | table => cases tag <;> ok_fin
       | joinL => cases tag <;> ok_fin
@@ -212,11 +216,9 @@ theorem local_ok (tb : Tables) (h1 : tb.tupleIsList = false) (h2 : tb.dupExc.cau
     | cte => cases tag <;> ok_fin
     | expr =>
       cases tag with
-      | func d hf al =>
+      | func name d hf al =>
         refine okExc_orElse_of _ _ ?_ (okExc_getAlias _)
-        have hx := hs
-        simp only [shapedNode, Bool.not_eq_true'] at hx
-        rw [hx]; rfl
+        simp [h3, okExc]
       | binop op al =>
         have ht : kindAt tb kids 0 ≠ .text := by simpa [shapedNode] using hs
         refine okExc_orElse_of _ _ ?_ (okExc_orElse_of _ _ ?_ (okExc_getAlias _))
@@ -241,7 +243,8 @@ theorem local_ok (tb : Tables) (h1 : tb.tupleIsList = false) (h2 : tb.dupExc.cau
 
 mutual
 /-- with Tuples rendered as sqlalchemy tuples and `RenderError` a caught class, EVERY parser-shaped tree is clean -/
-theorem shaped_clean (tb : Tables) (w : Bool) (h1 : tb.tupleIsList = false) (h2 : tb.dupExc.caught = true) :
+theorem shaped_clean (tb : Tables) (w : Bool) (h1 : tb.tupleIsList = false) (h2 : tb.dupExc.caught = true)
+    (h3 : tb.funcGuard = true) :
     ∀ (c : Ctx) (t : T), shaped tb w c t = true → clean tb w c t = true
   | c, .mk tag kids => by
     intro h
@@ -250,13 +253,14 @@ theorem shaped_clean (tb : Tables) (w : Bool) (h1 : tb.tupleIsList = false) (h2 
     by_cases hs : c = .skip
     · simp [hs]
     · simp only [hs, if_false, Bool.and_eq_true] at h ⊢
-      have hl := local_ok tb h1 h2 c tag kids h.1
+      have hl := local_ok tb h1 h2 h3 c tag kids h.1
       cases hp : pre tb c tag kids with
       | some e => simpa [hp, okExc] using hl.1
       | none =>
         simp only [Bool.and_eq_true]
-        exact ⟨shaped_cleanL tb w h1 h2 c tag 0 kids h.2, hl.2⟩
-theorem shaped_cleanL (tb : Tables) (w : Bool) (h1 : tb.tupleIsList = false) (h2 : tb.dupExc.caught = true) :
+        exact ⟨shaped_cleanL tb w h1 h2 h3 c tag 0 kids h.2, hl.2⟩
+theorem shaped_cleanL (tb : Tables) (w : Bool) (h1 : tb.tupleIsList = false) (h2 : tb.dupExc.caught = true)
+    (h3 : tb.funcGuard = true) :
     ∀ (c : Ctx) (tag : Tag) (i : Nat) (ks : List T), shapedL tb w c tag i ks = true → cleanL tb w c tag i ks = true
   | c, tag, i, [] => by intro _; rfl
   | c, tag, i, k :: ks => by
@@ -264,7 +268,7 @@ theorem shaped_cleanL (tb : Tables) (w : Bool) (h1 : tb.tupleIsList = false) (h2
     unfold shapedL at h
     unfold cleanL
     simp only [Bool.and_eq_true] at h ⊢
-    exact ⟨shaped_clean tb w h1 h2 _ k h.1, shaped_cleanL tb w h1 h2 c tag (i + 1) ks h.2⟩
+    exact ⟨shaped_clean tb w h1 h2 h3 _ k h.1, shaped_cleanL tb w h1 h2 h3 c tag (i + 1) ks h.2⟩
 end
 
 /-! ### the repaired postgres scanner -/
